@@ -19,6 +19,7 @@ PROP_UNITS = {
     'C04': ['tt', 'mate'],
     'C13': ['mate'],
     'C18': ['book'],
+    'C07': ['nn'],
 }
 
 
@@ -254,8 +255,9 @@ def write_evidence(path, prop, tier, seed, t0, results, unit_info, assumptions, 
                    undecided=(), known=(), error=None, kill=None):
     main = [r for r in results if not r['canary']]
     canaries = [r for r in results if r['canary']]
-    obligations = sum(r['props'] for r in main)
-    discharged = sum(r['ok'] for r in main if r['status'] in ('discharged', 'failed'))
+    # groups that carry a data/size bound are bounded stand-ins: reported, never counted as proved
+    obligations = sum(r['props'] for r in main if not r.get('bounded'))
+    discharged = sum(r['ok'] for r in main if r['status'] in ('discharged', 'failed') and not r.get('bounded'))
     samples = []
     for r in main[:6]:
         for s in r['samples'][:2]:
@@ -274,7 +276,8 @@ def write_evidence(path, prop, tier, seed, t0, results, unit_info, assumptions, 
             'groups': [{'group': r['unit'] + '.' + r['group'], 'harness': r['harness'], 'function_under_contract': r['enforce'],
                         'callees_replaced_by_contract': r['replace'], 'backend': r['backend'], 'mode': r.get('mode', 'dfcc'), 'obligations': r['props'],
                         'discharged': r['ok'], 'status': r['status'], 'seconds': r['secs'], 'reason': r['reason'][:300],
-                        'loop_contract_obligations': r['loop_props']} for r in main],
+                        'loop_contract_obligations': r['loop_props'], 'bounded': r.get('bounded', ''), 'note': r.get('note', '')} for r in main],
+            'bounded_stand_ins': [{'group': r['unit'] + '.' + r['group'], 'bound': r['bounded'], 'obligations': r['props'], 'discharged': r['ok']} for r in main if r.get('bounded')],
             'canaries': [{'group': r['unit'] + '.' + r['group'], 'failed_as_required': r['status'] == 'failed'} for r in canaries],
             'functions_extracted': funcs,
             'skipped_in_quick': skipped,
